@@ -68,6 +68,12 @@ Proof.
     + destruct (_ =? _); [|reflexivity]. rewrite tight_app, In_. reflexivity.
   - destruct (zmem _ _); [reflexivity|]. destruct (zmem _ _); [reflexivity|]. destruct (_ =? _); reflexivity.
   - destruct (zmem _ _); [reflexivity|]. destruct (zmem _ _); [reflexivity|]. destruct (_ =? _); reflexivity.
+  - assert (In_ : tight (map (fun kv => ASet [A (resolve_alias h r name)] (fst kv) (new_list (snd kv))) kvss) = true)
+      by (apply tight_map_scalar; intros kv; reflexivity).
+    destruct (zmem _ _); [reflexivity|]. destruct (zmem _ _).
+    + change (tight ([ASet [] (A (resolve_alias h r name)) (SFresh KDict [])] ++ map (fun kv => ASet [A (resolve_alias h r name)] (fst kv) (new_list (snd kv))) kvss) = true).
+      rewrite tight_app, In_. reflexivity.
+    + destruct (_ =? _); [|reflexivity]. rewrite tight_app, In_. reflexivity.
   - destruct (zmem _ _); [destruct (Nat.eqb _ _)|]; reflexivity.
 Qed.
 
